@@ -3,6 +3,7 @@ package base
 // Metric key sets (C07 robustness, C06/C19 attribution).
 
 import (
+	"github.com/relex/slog-agent/util"
 	"github.com/relex/slog-agent/zz_verif/fakes"
 	"github.com/relex/slog-agent/zz_verif/sym"
 )
@@ -72,3 +73,38 @@ func VerifC19_MetricKeySetAttribution() {
 		sym.Reach("same")
 	}
 }
+
+// VerifC19_LabelsSurviveBufferReuse: the label values of a metric key set are
+// private copies: after the record that created the key set is released and its
+// buffer reused, later records of the same tuple are still counted under the
+// original label values.
+//
+//verif:reach checked
+func VerifC19_LabelsSurviveBufferReuse() {
+	n := sym.Choice("len", 2) + 1
+	buf := sym.Bytes("host", n, n)
+	for i := range buf {
+		sym.Assume(buf[i] < 0x80)
+	}
+	orig := string(buf)
+	m := fakes.NewMetrics()
+	pc := verifNewProcessCounter(m)
+	r1 := verifKeySchema.NewTestRecord1(LogFields{util.StringFromBytes(buf), "app", "m"})
+	r1.RawLength = 10
+	pc.SelectMetricKeySet(r1).CountRecordPass(r1)
+	for i := range buf {
+		buf[i] = sym.Byte("overwrite") & 0x7f // the record is released, its buffer reused
+	}
+	r2 := verifKeySchema.NewTestRecord1(LogFields{orig, "app", "m"})
+	r2.RawLength = 5
+	pc.SelectMetricKeySet(r2).CountRecordPass(r2)
+	pc.UpdateMetrics()
+	sym.Assert(m.CounterValue("passed_records_total", orig, "app") == 2 && m.CounterValue("passed_record_bytes_total", orig, "app") == 15,
+		"both records are counted under the original label values of their key set")
+	sym.Reach("checked")
+}
+
+// VerifC12_MetricLabelsOutliveTheRecord: the same run read as record isolation.
+//
+//verif:reach checked
+func VerifC12_MetricLabelsOutliveTheRecord() { VerifC19_LabelsSurviveBufferReuse() }
